@@ -247,7 +247,8 @@ func (rm *RequestManager) releaseRequestTask(p peer.ID, task *peertask.Task, err
 	if !ok {
 		return
 	}
-	if _, ok := err.(hooks.ErrPaused); ok {
+	// a request that was cancelled while its executor was pausing must still terminate
+	if _, ok := err.(hooks.ErrPaused); ok && ipr.ctx.Err() == nil {
 		ipr.state = graphsync.Paused
 		return
 	}
